@@ -40,6 +40,7 @@ func runC02(c *h.Ctx) {
 		guardedRT(c)
 		guardedNamedRT(c)
 		guardedStreamRT(c)
+		guardedNestedRT(c)
 	}
 	if c.Want("quote") {
 		quoteCheck(c)
